@@ -181,7 +181,9 @@ def run(res, tier, rng):
     cand = [["localhostcert", "net"], ["localhost", "daplie", "me"], ["x", "localhost", "daplie", "me"], ["127", "0", "0", "1", "nip", "io"], ["10", "0", "0", "1x", "com"],
             ["svc", "firenet", "ch"], ["kawasaki", "jp"], ["city", "kawasaki", "jp"], ["ck"], ["www", "ck"], ["a", "www", "ck"]] + cand
     forms = [lambda h: h, lambda h: h.upper(), lambda h: h + ".", lambda h: "http://" + h + "/a?b#c",
-             lambda h: "https://user:pw@" + h + ":8080/", lambda h: "//" + h]
+             lambda h: "https://user:pw@" + h + ":8080/", lambda h: "//" + h,
+             # scheme-less and slash-less: query, fragment, port, userinfo directly after / before the host
+             lambda h: h + "?x=1", lambda h: h + "#top", lambda h: h + ":8080", lambda h: "user@" + h, lambda h: h + "/p?q#f"]
     urls = []
     for i, labs in enumerate(cand):
         urls.append(forms[i % len(forms)](".".join(labs)))
@@ -264,7 +266,7 @@ def run(res, tier, rng):
     res.rule = ("A: every rule set of <= %d rules (plus %s seeded larger sets) out of the 33 normal / wildcard / exception rules of 1-3 labels over {a,b}, "
                 "x all 120 hostnames of depth <= 4 over {a,b,c}; implementation vs independent Python PSL transcription vs extracted Coq `psl` vs extracted model. "
                 "B: bundled list (%d%% of the rules this run): rule as host, +1/+2 labels, wildcard instantiated, exception label and parent, every proper suffix, random "
-                "label sequences; upper-case / trailing-dot / URL forms. Non-trivial = rule sets with >= 2 rules, and every bundled host."
+                "label sequences; upper-case / trailing-dot / URL forms (scheme, '//', userinfo, port, and scheme-less hosts directly followed by '?', '#', ':port', '/'). Non-trivial = rule sets with >= 2 rules, and every bundled host."
                 % (maxr, "1000" if tier == "quick" else "30000", int(frac * 100)))
     res.sample(dict(rules=list(sets[3]), host="a.b.c", observed=observe(impl_trie(sets[3]), "a.b.c")))
     res.sample(dict(url=urls[0], observed=[list(call(T.split_suffix, urls[0]) or []), call(T.get_domain_name, urls[0])]))
